@@ -64,7 +64,11 @@ def _worker(st, ctx):
             if sum(val0[i]) and abs(float(np.sum(rs.array[i])) - (1 - 6e-6)) > 1e-12:
                 f.append(("mapping", "after %s an input total of 1 - 6e-6 became %.12f" % (st["maps"], float(np.sum(rs.array[i])))))
                 return out
-    for kind, inv in st["maps"]:
+    for n_map, (kind, inv) in enumerate(st["maps"]):
+        if (len(st["ins"]) + len(st["outs0"]) + n_map) % 3 == 1:
+            inv = np.bool_(inv)              # the flag as a caller may hold it (result of a numpy comparison)
+        elif (len(st["ins"]) + len(st["outs0"]) + n_map) % 3 == 2:
+            inv = int(inv)
         try:
             r = r.apply_threshold_mapping(invert=inv) if kind == "threshold" else r.apply_parity_mapping(invert=inv)
         except Exception as e:  # noqa: BLE001
